@@ -39,6 +39,47 @@ def oracle_c01_kzg(case, lo):
     return fails
 
 
+def oracle_kzg_muts(case, lo):
+    """KZG10 single-check mutations whose rejection is unconditional (theorems C02_kzg10_value,
+    C02_kzg10_commitment): a changed value or a different commitment element must not be accepted"""
+    fails = []
+    if case.kind != "kzg10":
+        return fails
+    for (j, i, kind, arg) in case.meta.get("muts", []):
+        if lib_s(lo, "check.%d" % i) != "accept":
+            continue
+        r = lib_s(lo, "mut.%d" % j)
+        if kind == "value" and r == "accept":
+            fails.append("kzg10 check accepts value + %s for polynomial %d (%s)" % (arg, i, case.meta["shapes"][i]))
+        if kind == "comm_exp" and r == "accept" and lib_toks(lo, "c.%d" % i) is not None:
+            fails.append("kzg10 check accepts a replaced commitment element for polynomial %d" % i)
+    return fails
+
+
+def oracle_kzg_batches(case, lo):
+    """KZG10::batch_check against the AND of the individual decisions (C05)"""
+    fails = []
+    if case.kind != "kzg10":
+        return fails
+    for b in case.meta.get("batches", []):
+        r = lib_s(lo, "batch.%d" % b["j"])
+        if r is None or r == "skipped":
+            continue
+        if any(lib_s(lo, "check.%d" % i) != "accept" for i in set(b["idx"]) | set(b["pidx"])):
+            continue
+        false_claims = [d for d in b["deltas"] if d != "0"]
+        aligned = b["pidx"] == b["idx"]
+        if aligned and not false_claims and r != "accept":
+            fails.append("kzg10 batch_check does not accept an all-true batch of %d claims -> %s" % (len(b["idx"]), r))
+        if aligned and len(false_claims) == 1 and r == "accept":
+            fails.append("kzg10 batch_check accepts a batch with one false claim (mode %s)" % b["mode"])
+        if aligned and b["mode"] == "cancel" and false_claims and r == "accept":
+            fails.append("kzg10 batch_check accepts cancelling errors +d/-d across two claims")
+        if len(b["pidx"]) != len(b["idx"]) and r == "accept":
+            fails.append("kzg10 batch_check accepts %d proofs for %d claims (mode %s)" % (len(b["pidx"]), len(b["idx"]), b["mode"]))
+    return fails
+
+
 def lib_toks(lo, name):
     v = lo.get(name)
     return v[1] if v else None
@@ -82,5 +123,33 @@ PROPS = {
         "filter": None,
         "oracles": [oracle_c16],
         "title": "Public algebraic helpers",
+    },
+    "C02": {
+        "props_file": "props/C02.v",
+        "flows": [(gen_kzg.gen, "c02", 40, 400), (gen_pc.gen, "c02", 96, 960)],
+        "oracles": [oracle_kzg_muts, lambda c, lo: pc_mutations(c, lo, ("value", "comm_swap", "cancel"))],
+        "accept_diffs": ("mut.",),
+        "title": "Evaluation binding (honest proof, false claim)",
+    },
+    "C03": {
+        "props_file": "props/C03.v",
+        "flows": [(gen_kzg.gen, "c03", 40, 400), (gen_pc.gen, "c03", 96, 960)],
+        "oracles": [lambda c, lo: pc_mutations(c, lo, ("proofs", "proof_mut"))],
+        "accept_diffs": ("mut.",),
+        "title": "Evaluation binding (crafted proofs)",
+    },
+    "C05": {
+        "props_file": "props/C05.v",
+        "flows": [(gen_kzg.gen, "c05", 60, 600), (gen_pc.gen, "c05", 96, 960)],
+        "oracles": [oracle_kzg_batches, lambda c, lo: pc_mutations(c, lo, ("value", "cancel", "proofs"))],
+        "accept_diffs": ("mut.", "batch."),
+        "title": "Batch verification",
+    },
+    "C10": {
+        "props_file": "props/C10.v",
+        "flows": [(gen_kzg.gen, "c10", 40, 400), (gen_pc.gen, "c10", 96, 960)],
+        "oracles": [oracle_kzg_muts, pc_honest, lambda c, lo: pc_mutations(c, lo, ("value", "comm_swap", "cancel", "proof_mut"))],
+        "accept_diffs": ("mut.", "batch."),
+        "title": "Verifiers decide the published relation",
     },
 }
